@@ -134,9 +134,9 @@ def gen_program(rng):
     names = R.TICKERS[:n]
     grid = rng.choice(["int", "dyadic", "float"])
     kinds = [rng.choice([1, 2, 2, 2, 3, 4, 0]) for _ in names]
-    if all(k in (3, 4) for k in kinds):
-        kinds[0] = 2
-    prices = R.gen_paths(rng, names, T, grid)
+    if not any(k in (1, 2) for k in kinds):
+        kinds[0] = 2   # at least one par-based security: a strategy of hedges only has no notional to measure returns on
+    prices = R.gen_paths(rng, names, T, grid, late=0.0)
     for nm, k in zip(names, kinds):
         if k in (1, 2, 4):
             base = 100.0
